@@ -46,7 +46,7 @@ class C02(CmpProp):
             # combinations the documentation REFUSES for some derived trait: the property allows exactly two outcomes,
             # a refusal by derive_ex or coherent impls - never an accepted, incoherent set
             pools = {}
-            for k in range(160 if tier == 'quick' else 1500):
+            for k in range(160 if tier == 'quick' else 6000):
                 traits = SETS[k % len(SETS)]
                 if tuple(traits) not in pools:
                     seen, pool = set(), []
@@ -104,7 +104,7 @@ class C02(CmpProp):
         return out
 
     def n(self, tier):
-        return 320 if tier == 'quick' else 1500
+        return 320 if tier == 'quick' else 6000
 
     def oracle(self, tier, rng, suspicious):
         saved = (G.KEY, G.BY, G.PRELUDE)
